@@ -34,6 +34,7 @@ type supObs struct {
 	closedAt  int // index of the action after which the close latch was first observed (-1: never)
 	lastByRun []bool
 	pending   bool // a commit's inject is still outstanding at the end
+	badReact  string
 }
 
 // execSup runs an action list on the real supervisor. The run goroutine is played by the harness:
@@ -152,9 +153,8 @@ func execSup(acts []string) (o supObs) {
 			}
 			// event available: one real step with the window inside
 			hookRan := false
-			preLen := len(o.sts)
-			_ = preLen
-			v.StepNext(func() {
+			nReact := len(v.Reactions)
+			evDone, _ := v.StepNext(func() {
 				hookRan = true
 				rec(true)                            // state after the load (unchanged)
 				envSeq(window, func() { rec(true) }) // model: runLoad while loaded is a no-op
@@ -169,6 +169,17 @@ func execSup(acts []string) (o supObs) {
 					}
 					rec(true)
 				})
+			}
+			// A disconnect / T7 event that fires the entering-NotConnected reaction (teardown + reconnect)
+			// must also have published NotConnected: reacting while State() still reads Selected would tear
+			// down a live session that the state says is fine ("never disconnected by a T7 armed before it
+			// was selected").
+			if (evDone == 3 || evDone == 5) && o.badReact == "" {
+				for _, rc := range v.Reactions[nReact:] {
+					if rc[1] == hsms.NotConnectedState && v.State() != hsms.NotConnectedState {
+						o.badReact = fmt.Sprintf("event %d fired the reaction %d>%d (teardown) while State() is %d", evDone, rc[0], rc[1], v.State())
+					}
+				}
 			}
 			if hasRC {
 				rec(true) // the commit
@@ -268,6 +279,9 @@ func supOracles(c *Ctx, acts []string, o supObs) {
 	if o.panicked != nil {
 		c.Violate("property", "supervisor-panic", fmt.Sprintf("panic: %v", o.panicked), replay)
 		return
+	}
+	if o.badReact != "" {
+		c.Violate("property", "disconnect-reaction-without-state-change", o.badReact, replay)
 	}
 	prev := 0
 	for i, s := range o.sts {
